@@ -244,6 +244,23 @@ func checkC08(c *CaseC08, fl *Fails) {
 }
 
 func sweepC08(tier string, emit func(*CaseC08)) {
+	// two voxels with the same small index numbers at every pair of zoom pairs (h, v) / (h', v') with |h - h'| <= 1:
+	// any key that packs the zooms and the numbers of a voxel into one value must keep them apart
+	for _, h := range []int64{20, 34} {
+		for dh := int64(-1); dh <= 1; dh++ {
+			if tier == "quick" && h == 34 && dh != 1 {
+				continue
+			}
+			for v := int64(0); v <= 35; v++ {
+				for v2 := int64(0); v2 <= 35; v2++ {
+					if dh == 0 && v == v2 {
+						continue
+					}
+					emit(&CaseC08{Boxes: []ref.Box{{H: h, X: 100, Y: 200, V: v, F: 0}, {H: h + dh, X: 100, Y: 200, V: v2, F: 0}}, HL: 1, VL: 1})
+				}
+			}
+		}
+	}
 	for i, n := range roundSizes {
 		if (tier == "quick" && i%3 != 1) || n > 2048 {
 			continue
